@@ -163,6 +163,7 @@ struct M : Machine {
     if (o == "t.linkE") { Peek::linkE(G, toU(k[1]), toU(k[2]), toU(k[3])); return "ok"; }
     if (o == "t.rootAt") { T.rootAt(toU(k[1])); return "ok"; }
     if (o == "t.unRoot") { T.unRoot(toU(k[1]) != 0); return "ok"; }
+    if (o == "t.setOutGroup") { T.setOutGroup(toU(k[1])); return "ok"; }
     // ---- queries
     if (o == "t.valid") return B(T.isValid());
     if (o == "t.qn") {
